@@ -516,3 +516,120 @@ func (p *cparser) isQuant() bool {
 	}
 	return p.p+1 < len(p.toks) && p.toks[p.p+1].kind == "id" && p.toks[p.p+1].text != "in"
 }
+
+// singleIndexedSlice returns the expression X when every use of the bound
+// variable v inside body as an index has the form X[v] for one and the same X
+// (which does not mention v); nil otherwise.
+func singleIndexedSlice(body CExpr, v string) CExpr {
+	var found CExpr
+	ok := true
+	var walk func(e CExpr)
+	mentions := func(e CExpr) bool {
+		m := false
+		var w func(e CExpr)
+		w = func(e CExpr) {
+			switch n := e.(type) {
+			case *CIdent:
+				if n.Name == v {
+					m = true
+				}
+			case *CBin:
+				w(n.L)
+				w(n.R)
+			case *CUn:
+				w(n.X)
+			case *CSel:
+				w(n.X)
+			case *CIndex:
+				w(n.X)
+				w(n.I)
+			case *CSlice:
+				w(n.X)
+				if n.Lo != nil {
+					w(n.Lo)
+				}
+				if n.Hi != nil {
+					w(n.Hi)
+				}
+			case *CCall:
+				w(n.Fun)
+				for _, a := range n.Args {
+					w(a)
+				}
+			case *CQuant:
+				if n.Lo != nil {
+					w(n.Lo)
+					w(n.Hi)
+				}
+				w(n.Body)
+			case *CIte:
+				w(n.C)
+				w(n.A)
+				w(n.B)
+			}
+		}
+		w(e)
+		return m
+	}
+	walk = func(e CExpr) {
+		switch n := e.(type) {
+		case *CBin:
+			walk(n.L)
+			walk(n.R)
+		case *CUn:
+			walk(n.X)
+		case *CSel:
+			walk(n.X)
+		case *CIndex:
+			if id, isID := n.I.(*CIdent); isID && id.Name == v && !mentions(n.X) {
+				if found == nil {
+					found = n.X
+				} else if found.String() != n.X.String() {
+					ok = false
+				}
+				walk(n.X)
+				return
+			}
+			walk(n.X)
+			walk(n.I)
+		case *CSlice:
+			walk(n.X)
+			if n.Lo != nil {
+				walk(n.Lo)
+			}
+			if n.Hi != nil {
+				walk(n.Hi)
+			}
+		case *CCall:
+			if id, isID := n.Fun.(*CIdent); isID && id.Name == "old" {
+				// old(X[v]) indexes the old-state slice: keep relative indexing
+				if mentions(e) {
+					ok = false
+				}
+				return
+			}
+			walk(n.Fun)
+			for _, a := range n.Args {
+				walk(a)
+			}
+		case *CQuant:
+			if n.Var == v {
+				return
+			}
+			if n.Lo != nil {
+				walk(n.Lo)
+				walk(n.Hi)
+			}
+			walk(n.Body)
+		case *CIte:
+			walk(n.C)
+			walk(n.A)
+			walk(n.B)
+		}
+	}
+	walk(body)
+	if !ok {
+		return nil
+	}
+	return found
+}
